@@ -49,6 +49,7 @@ type Check struct {
 	excUsed   map[string]bool
 	SkipRules map[string]bool // rules of a borrowed group that this property does not rest on
 	OnlyRules map[string]bool // when set, only these rules of a borrowed group are recorded
+	raw       bool            // recording for the group cache: no filters, no exception lookup
 }
 
 func NewCheck(p *Prog, prop string) *Check {
@@ -57,6 +58,10 @@ func NewCheck(p *Prog, prop string) *Check {
 
 func (c *Check) add(o *Obligation) *Obligation {
 	o.Variant = c.P.Variant.Name
+	if c.raw {
+		c.Obs = append(c.Obs, o)
+		return o
+	}
 	if c.SkipRules[o.Rule] || c.OnlyRules != nil && !c.OnlyRules[o.Rule] {
 		// a shared group is borrowed by a property that does not rest on this rule
 		return o
@@ -281,4 +286,27 @@ func (r *RunResult) Finish(verifDir string) int {
 	}
 	fmt.Printf("VIOLATION property=%s replay=%s\n", r.Property, repPath)
 	return 1
+}
+
+// g runs a rule group once per loaded program and replays its obligations into every property
+// that includes it (groups are shared by several properties; -all runs them all on one program).
+func g(c *Check, name string, fn func(*Check)) {
+	p := c.P
+	if p.groupCache == nil {
+		p.groupCache = map[string]*Check{}
+	}
+	tmp, ok := p.groupCache[name]
+	if !ok {
+		tmp = NewCheck(p, c.Property)
+		tmp.raw = true
+		fn(tmp)
+		p.groupCache[name] = tmp
+	}
+	for _, o := range tmp.Obs {
+		cp := *o
+		cp.Chain = append([]string{}, o.Chain...)
+		c.add(&cp)
+	}
+	c.Notes = append(c.Notes, tmp.Notes...)
+	c.Omitted = append(c.Omitted, tmp.Omitted...)
 }
